@@ -7,6 +7,7 @@ pub mod c08;
 pub mod c10;
 pub mod c13;
 pub mod ident;
+pub mod limstress;
 pub mod codegen;
 pub mod router;
 pub mod rpc;
@@ -67,6 +68,7 @@ pub fn dispatch(args: &[String]) -> i32 {
         "replay-router" => router::replay(&a),
         "replay-rate" => tower::replay_rate(&a),
         "rate-hint-probe" => tower::rate_hint_probe(&a),
+        "limstress" => limstress::main(&a),
         other => {
             eprintln!("unknown scenario {other}");
             2
